@@ -92,6 +92,11 @@ type Syncer struct {
 	// cleaner cleans old snapshots in the background
 	cleaner *cleaner.Worker
 
+	// txnWrote records if the current LoadOnce/SendOnce write transaction
+	// changed anything in the LMDB. An empty write transaction is not recorded
+	// by LMDB, which reuses its TxnID for the next (application) transaction.
+	txnWrote bool
+
 	// Health trackers
 	storageStoreHealth *healthtracker.HealthTracker
 	startTracker       *starttracker.StartTracker
